@@ -393,7 +393,13 @@ def ladder_case(case):
         a.integrate()
         return a
     span = (LD(0), LD(1)) if case["dir"] > 0 else (LD(1), LD(0))
-    ref = run(I.RK1412Solver, 64, span).y[-1]
+    # reference: 64 fixed steps of the 14th-order method, stepped by hand (inside OdeSystem an embedded pair would adapt its step)
+    refm = I.RK1412Solver((2,), dtype=np.dtype(LD))
+    tr, yr, hr = span[0], y0.copy(), (span[1] - span[0]) / 64
+    for _ in range(64):
+        _, (dt_, dy_) = refm.step(de.DiffRHS(f), tr, yr, {}, hr)
+        tr = tr + dt_; yr = yr + dy_
+    ref = yr
     errs = []
     ns = [4, 8, 16, 32, 64]
     for n in ns:
